@@ -79,7 +79,7 @@ STRS = [
     "true", "True", "TRUE", "false", "False", "FALSE", "none", "50%", "%d", "%(a)s",
     "x y", "A", "<b>", "&amp", "path", "\\path", "type", "1.5", "٣x", "tRuE",
     "+3", "1_0", "1.", ".5", "0x1", "١٢", "a.b", "a/b", "a\\b", ".", "/", "ß", "İ", "ǅ", "Straße", "TRUE\n",
-    "x" * 40, "long string " * 20,
+    "x" * 40, "long string " * 20, "x\n  \ny", "first\n\n    indented\nlast",
 ]
 CHARS = "ab1 %<&\"'`.\\/AZ09-_é٣x"
 INTS = [0, 1, -1, 2, 3, 5, 7, 10, 12, -4, 100, 2**31, -(2**31), 2**62, -(2**62), 2**63 - 1, -(2**63), 255, 256, 1000]
@@ -222,13 +222,31 @@ BIG_SIZES = [9, 12, 17, 33, 40, 65, 100, 129, 257, 300]
 
 def big_n(r):
     """A container size around the usual thresholds (8, 16, 32, 64, 100, 128, 256)."""
+    if r.pct() < 4:
+        return r.choice([1025, 1500, 2049])  # beyond 1000 / 1024 (rarely: such documents are slow to judge)
     return r.choice(BIG_SIZES[: 6 if r.coin(70) else len(BIG_SIZES)])
+
+
+def cap(x, n=300):
+    """`x` with every container of more than n items cut down to n (for tests that judge one document many times)."""
+    if isinstance(x, list):
+        if len(x) > n:
+            del x[n:]
+        for v in x:
+            cap(v, n)
+    elif isinstance(x, dict):
+        if len(x) > n:
+            for k in list(x)[n:]:
+                del x[k]
+        for v in x.values():
+            cap(v, n)
+    return x
 
 
 def deep_chain(r, sc=scalar):
     """A document that is one long chain of single-child containers (depth 7-10)."""
     node = sc(r) if r.coin() else [sc(r), sc(r)]
-    for _ in range(r.between(7, 10)):
+    for _ in range(r.between(7, 10) if r.pct() >= 6 else r.choice([33, 34, 40, 65])):  # rarely far deeper
         node = [node] if r.coin(35) else {key(r) if r.coin(30) else r.choice(KEY_STRS): node}
     if not isinstance(node, (list, dict)) or not node:
         node = [node]
@@ -708,7 +726,7 @@ def guided_path(r, doc_, max_len=4, miss=18, mode="typed", labels=False, prim_on
 
 
 # --------------------------------------------------------------------------- rules
-DOC_STRS = ["A doc.", "uses `code` here", "<b>bold</b> & more", "  padded \n", "x < y", "", "tick ` alone"]
+DOC_STRS = ["A doc.", "uses `code` here", "<b>bold</b> & more", "  padded \n", "x < y", "", "tick ` alone", "two lines\n  \nwith a blank, indented one"]
 
 
 def doc_block(r):
